@@ -421,6 +421,13 @@ def _real_runs(worker_counts=(1, 2, 4), orders=("natural", "reversed", "rotated"
                 if order != "natural":
                     mpp.Pool.imap_unordered = forced
                 try:
+                    if nw > 1:
+                        # what this process did sequentially before (another binning on the same caches) must not leak into what
+                        # the worker processes see: nothing that is cached in memory may stand in for the files the workers rewrite
+                        os.environ["YAW_NUM_THREADS"] = "1"
+                        other = yaw.Configuration.create(rmin=500, rmax=5000, zmin=0.1, zmax=1.0, num_bins=2, closed="right")
+                        yaw.crosscorrelate(other, yaw.Catalog(tmp + "/ref", max_workers=1), unk, ref_rand=rand, max_workers=1)
+                        os.environ["YAW_NUM_THREADS"] = str(nw)
                     try:
                         cat = yaw.Catalog(tmp + "/ref", max_workers=nw)
                         hist = HistData.from_catalog(cat, cfg, max_workers=nw)
@@ -456,7 +463,7 @@ def bounded(opts):
         if diff and len(viol) < 5:
             viol.append(dict(id="bounded:worker_count_and_arrival_order", case=label, differs_in=diff, reference=ref_label))
     return dict(kind="bounded", bound="one catalog triple (8 patches, 510 objects with weights over 6 decades, one patch 6x larger, three patches empty in the last bin), 3 redshift bins; "
-                "worker counts and forced arrival orders: " + ", ".join(lab for lab, _ in runs),
+                "before every parallel run a sequential measurement with another binning in the same process; worker counts and forced arrival orders: " + ", ".join(lab for lab, _ in runs),
                 evaluations=len(runs) * len(ref), distinct_nontrivial=max(len(runs) - 1, 0), violations=viol,
                 samples=[dict(run=lab, ids=r.get("ids"), nrec=r.get("nrec")) for lab, r in runs[:2]], wall_s=round(time.time() - t0, 2),
                 note="bit-wise comparison of loaded metadata, histogram (+samples), DD/RD counts and weight sums against the "
